@@ -21,6 +21,8 @@ def run(ctx, rep, tier):
         G = ctx.cg(cfg)
         tag = '' if cfg == 'default' else '[%s]' % cfg
         shared.report_provenance(rep, F, E, tag, 'C03.R1')
+        shared.pred_is_solved(rep, F, tag, 'C03.R3p')
+        shared.pred_check_convergence(rep, F, tag, 'C03.R3p')
         shared.nan_objectives(rep, F, tag, 'C03.R1n')
         shared.status_provenance(rep, F, E, tag, 'C03.R3', statuses=('AlmostSolved', 'AlmostPrimalInfeasible', 'AlmostDualInfeasible'),
                                  full_fn='check_convergence_almost', slot=9)
